@@ -10,7 +10,9 @@ import Mathlib.Algebra.Order.Field.Rat
 Part 1: specification vocabulary (per-entity reading of a store, total of the known pieces,
 number of unknown pieces, well-formedness, extensional equality of stores).
 Part 2: stores and vectors. Part 3: the two loops (`dispatchOn`, `tally`, `divideOn`).
-Part 4: several calls (order). Part 5: the calendar walk.
+Part 4: several calls (order). Part 5: the calendar walk. Part 6 (round 2): whole histories
+(`feedAll`), the builder's order, `calculate` piece by piece, the loops with `holder._set`, the week
+family, order independence as a permutation statement.
 -/
 namespace OFCore
 
@@ -1583,5 +1585,958 @@ theorem walk_eq_subperiods (p : Period) (defU : DUnit) (h : WalkDomain p defU) (
     walk defU p = p.subperiods defU := by
   obtain ⟨qs, hw, _, _, _, _, hq⟩ := walk_tiles p defU h
   rw [hw, hq, subperiods_eq_pieces p defU h hal]
+
+/-! ## 6. whole histories of inputs (`feedAll`), the builder's order, `calculate` piece by piece -/
+
+/-- the input is not dropped by the `end` test of `Simulation.set_input` / the builder -/
+def Live (var : VarSpec) (p : Period) : Prop :=
+  match var.endDate with
+  | none => True
+  | some e => dateOk p.start = true ∧ ¬ e.lt p.start
+
+instance (var : VarSpec) (p : Period) : Decidable (Live var p) := by
+  unfold Live; cases var.endDate <;> infer_instance
+
+theorem simSetInput_live {var : VarSpec} {s : Store} {p : Period} {v : Vec} (h : Live var p) :
+    simSetInput var s p v = setInput var s p v := by
+  unfold simSetInput
+  unfold Live at h
+  cases he : var.endDate with
+  | none => rfl
+  | some e => rw [he] at h; simp [h.1, h.2]
+
+/-- `Simulation.set_input` either drops the input, refuses the date, or is `Holder.set_input` -/
+theorem simSetInput_cases (var : VarSpec) (s : Store) (p : Period) (v : Vec) :
+    simSetInput var s p v = setInput var s p v ∨ simSetInput var s p v = .ok s ∨
+      ∃ e, simSetInput var s p v = .error e := by
+  unfold simSetInput
+  cases var.endDate with
+  | none => exact Or.inl rfl
+  | some e =>
+    simp only
+    split
+    · exact Or.inr (Or.inr ⟨_, rfl⟩)
+    · split
+      · exact Or.inr (Or.inl rfl)
+      · exact Or.inl rfl
+
+theorem divideOn_keeps {k : VKind} {s t : Store} {l : List Period} {a : Vec} (h : divideOn k s l a = .ok t)
+    {q : Period} {w : Vec} (hq : sget s q = some w) : sget t q = some w := by
+  unfold divideOn at h
+  simp only at h
+  split at h
+  · injection h with h; subst h; rw [sget_dispatchOn, hq]
+  · split at h
+    · injection h with h; subst h; exact hq
+    · cases h
+
+/-- a variable declared with a rule never changes a value once it is set -/
+theorem setInput_keeps {var : VarSpec} (hr : var.rule ≠ .absent) {s t : Store} {p : Period} {v : Vec}
+    (h : setInput var s p v = .ok t) {q : Period} {w : Vec} (hq : sget s q = some w) : sget t q = some w := by
+  by_cases hn : var.neutralized = true
+  · unfold setInput at h
+    simp only [hn, if_true] at h
+    split at h
+    · cases h
+    · injection h with h; subst h; exact hq
+  · have hn : var.neutralized = false := by simpa using hn
+    cases hrule : var.rule with
+    | absent => exact absurd hrule hr
+    | dispatch =>
+      obtain ⟨_, _, subs, _, rfl⟩ := setInput_dispatch_inv hrule hn h
+      rw [sget_dispatchOn, hq]
+    | divide =>
+      obtain ⟨_, _, subs, _, hd⟩ := setInput_divide_inv hrule hn h
+      exact divideOn_keeps hd hq
+
+theorem simSetInput_keeps {var : VarSpec} (hr : var.rule ≠ .absent) {s t : Store} {p : Period} {v : Vec}
+    (h : simSetInput var s p v = .ok t) {q : Period} {w : Vec} (hq : sget s q = some w) : sget t q = some w := by
+  rcases simSetInput_cases var s p v with e | e | ⟨e', e⟩
+  · rw [e] at h; exact setInput_keeps hr h hq
+  · rw [e] at h; injection h with h; subst h; exact hq
+  · rw [e] at h; cases h
+
+theorem feedAll_keeps {var : VarSpec} (hr : var.rule ≠ .absent) {calls : List (Period × Vec)} {s t : Store}
+    (h : feedAll var s calls = .ok t) {q : Period} {w : Vec} (hq : sget s q = some w) : sget t q = some w := by
+  induction calls generalizing s with
+  | nil => simp only [feedAll] at h; injection h with h; subst h; exact hq
+  | cons x xs ih =>
+    obtain ⟨p, v⟩ := x
+    simp only [feedAll] at h
+    cases hs : simSetInput var s p v with
+    | error e => rw [hs] at h; cases h
+    | ok s1 => rw [hs] at h; exact ih h (simSetInput_keeps hr hs hq)
+
+/-- the store stays well formed along `Holder.set_input` (all rules, all value types) -/
+theorem setInput_wf {var : VarSpec} {s t : Store} {p : Period} {v : Vec} (hwf : WF var.count s)
+    (h : setInput var s p v = .ok t) : WF var.count t := by
+  by_cases hn : var.neutralized = true
+  · unfold setInput at h
+    simp only [hn, if_true] at h
+    split at h
+    · cases h
+    · injection h with h; subst h; exact hwf
+  have hn : var.neutralized = false := by simpa using hn
+  cases hr : var.rule with
+  | dispatch =>
+    obtain ⟨hl, _, subs, _, rfl⟩ := setInput_dispatch_inv hr hn h
+    exact filled_wf (dispatchOn_filled s subs _) hwf (by rw [castVec_length, hl])
+  | divide =>
+    obtain ⟨hl, _, subs, _, hd⟩ := setInput_divide_inv hr hn h
+    have hcl : (castVec var.kind v).length = var.count := by rw [castVec_length, hl]
+    obtain ⟨h1, _, _⟩ := tally_spec s subs (castVec var.kind v) (hcl ▸ hwf)
+    unfold divideOn at hd
+    simp only at hd
+    split at hd
+    · injection hd with hd; subst hd
+      exact filled_wf (dispatchOn_filled s subs _) hwf (by rw [castVec_length, vdivn_length, h1, hcl])
+    · split at hd
+      · injection hd with hd; subst hd; exact hwf
+      · cases hd
+  | absent =>
+    unfold setInput at h
+    simp only [hn, Bool.false_eq_true, if_false] at h
+    split at h
+    · cases h
+    · rw [hr] at h
+      simp only [holderSet, toArray] at h
+      by_cases hl : v.length ≠ var.count
+      · rw [if_pos hl] at h; cases h
+      · rw [if_neg hl] at h
+        have hcl : (castVec var.kind v).length = var.count := by rw [castVec_length]; simpa using hl
+        have key : ∀ k, WF var.count (sput s k (castVec var.kind v)) := by
+          intro k q w hq
+          rw [sget_sput] at hq
+          split at hq
+          · injection hq with hq; rw [← hq]; exact hcl
+          · exact hwf q w hq
+        simp only [bind, Except.bind] at h
+        split at h
+        · split at h
+          · cases h
+          · injection h with h; subst h; exact key _
+        · injection h with h; subst h; exact key _
+
+theorem simSetInput_wf {var : VarSpec} {s t : Store} {p : Period} {v : Vec} (hwf : WF var.count s)
+    (h : simSetInput var s p v = .ok t) : WF var.count t := by
+  rcases simSetInput_cases var s p v with e | e | ⟨e', e⟩
+  · rw [e] at h; exact setInput_wf hwf h
+  · rw [e] at h; injection h with h; subst h; exact hwf
+  · rw [e] at h; cases h
+
+theorem feedAll_wf {var : VarSpec} {calls : List (Period × Vec)} {s t : Store} (hwf : WF var.count s)
+    (h : feedAll var s calls = .ok t) : WF var.count t := by
+  induction calls generalizing s with
+  | nil => simp only [feedAll] at h; injection h with h; subst h; exact hwf
+  | cons x xs ih =>
+    obtain ⟨p, v⟩ := x
+    simp only [feedAll] at h
+    cases hs : simSetInput var s p v with
+    | error e => rw [hs] at h; cases h
+    | ok s1 => rw [hs] at h; exact ih (simSetInput_wf hwf hs) h
+
+/-- an accepted divide input (exact values): afterwards every piece is known and the pieces sum to
+the amount -/
+theorem setInput_divide_known {var : VarSpec} {s t : Store} {p : Period} {v : Vec} (hr : var.rule = .divide)
+    (hk : var.kind = .num) (hn : var.neutralized = false) (hwf : WF var.count s)
+    (h : setInput var s p v = .ok t) :
+    ∃ subs, walk var.defUnit p = .ok subs ∧ v.length = var.count ∧ (∀ q, q ∈ subs → sget t q ≠ none) ∧
+      ∀ i, knownSum t subs i = ent v i := by
+  obtain ⟨hl, _, subs, hw, hd⟩ := setInput_divide_inv hr hn h
+  rw [hk] at hd
+  simp only [castVec] at hd
+  obtain ⟨c, _, hf, hsum, _⟩ := divideOn_ok_spec (hl ▸ hwf) hd
+  exact ⟨subs, hw, hl, fun q hq => filled_known hf q hq, fun i => by rw [knownSum_filled hf, hsum i]⟩
+
+/-- **every history.** Whatever inputs a divide variable receives, in whatever order (pieces, long
+periods, overlapping, enclosing, repeated): if the history is accepted, then at its end the pieces of
+EVERY input that was not dropped by the `end` test still sum to the amount of that input -/
+theorem feedAll_conserves {var : VarSpec} (hr : var.rule = .divide) (hk : var.kind = .num)
+    (hn : var.neutralized = false) {calls : List (Period × Vec)} {s t : Store} (hwf : WF var.count s)
+    (h : feedAll var s calls = .ok t) {p : Period} {v : Vec} (hm : (p, v) ∈ calls) (hlive : Live var p) :
+    ∃ subs, walk var.defUnit p = .ok subs ∧ v.length = var.count ∧ (∀ q, q ∈ subs → sget t q ≠ none) ∧
+      ∀ i, knownSum t subs i = ent v i := by
+  have hra : var.rule ≠ .absent := by rw [hr]; decide
+  induction calls generalizing s with
+  | nil => cases hm
+  | cons x xs ih =>
+    obtain ⟨p', v'⟩ := x
+    simp only [feedAll] at h
+    cases hs : simSetInput var s p' v' with
+    | error e => rw [hs] at h; cases h
+    | ok s1 =>
+      rw [hs] at h
+      rcases List.mem_cons.mp hm with e | hm'
+      · injection e with e1 e2
+        subst e1; subst e2
+        rw [simSetInput_live hlive] at hs
+        obtain ⟨subs, hw, hl, hkn, hsum⟩ := setInput_divide_known hr hk hn hwf hs
+        have hsame : ∀ q, q ∈ subs → sget s1 q = sget t q := by
+          intro q hq
+          cases hq' : sget s1 q with
+          | none => exact absurd hq' (hkn q hq)
+          | some w => exact (feedAll_keeps hra h hq').symm
+        refine ⟨subs, hw, hl, fun q hq => by rw [← hsame q hq]; exact hkn q hq, fun i => ?_⟩
+        rw [← knownSum_congr s1 t subs hsame i]; exact hsum i
+      · exact ih (simSetInput_wf hwf hs) h hm'
+
+/-- the sum over pieces that are all known: the store is left as it is -/
+theorem sumOver_all_known {n : Nat} {t : Store} (hwt : WF n t) {subs : List Period}
+    (hkn : ∀ q, q ∈ subs → sget t q ≠ none) {v : Vec} (hl : v.length = n)
+    (hsum : ∀ i, knownSum t subs i = ent v i) : sumOver n t subs = (v, t) := by
+  obtain ⟨h1, h2, h3⟩ := sumOver_spec n t hwt subs
+  have hstore : (sumOver n t subs).2 = t := by rw [h1]; exact dispatchOn_all_known t subs _ hkn
+  have hval : (sumOver n t subs).1 = v := vec_ext (by rw [h2, hl]) (fun i _ => by rw [h3 i]; exact hsum i)
+  exact Prod.ext hval hstore
+
+/-- `calculate_add` over an aligned period whose pieces are all known and sum to `v` -/
+theorem calcAdd_of_known {var : VarSpec} {t : Store} {p : Period} {v : Vec} {subs : List Period}
+    (hn : var.neutralized = false) (hwt : WF var.count t) (hd : WalkDomain p var.defUnit)
+    (hal : Aligned p var.defUnit) (hw : walk var.defUnit p = .ok subs) (hl : v.length = var.count)
+    (hkn : ∀ q, q ∈ subs → sget t q ≠ none) (hsum : ∀ i, knownSum t subs i = ent v i) :
+    calcAdd var t p = .ok (some v, t) := by
+  obtain ⟨qs, hw', _, hne, _, _, _⟩ := walk_tiles p var.defUnit hd
+  have hsub : p.subperiods var.defUnit = .ok subs := by rw [← walk_eq_subperiods p var.defUnit hd hal, hw]
+  have hsubs_ne : subs.isEmpty = false := by
+    rw [hw] at hw'; injection hw' with e; subst e
+    cases subs with
+    | nil => exact absurd rfl hne
+    | cons _ _ => rfl
+  have hweight : ¬ (unitWeight var.defUnit > unitWeight p.unit) := by
+    obtain ⟨_, _, _, ⟨h1, h2 | h2 | h2⟩ | ⟨h1, h2 | h2, _⟩ | ⟨h1, h2, _⟩⟩ := hd <;> rw [h1, h2] <;> decide
+  have hpu : ¬ (p.unit = .eternity) := by
+    obtain ⟨_, _, _, ⟨_, h2 | h2 | h2⟩ | ⟨_, h2 | h2, _⟩ | ⟨_, h2, _⟩⟩ := hd <;> rw [h2] <;> decide
+  have he : ¬ (var.defUnit = .eternity) := by
+    obtain ⟨_, _, _, ⟨h1, _⟩ | ⟨h1, _⟩ | ⟨h1, _⟩⟩ := hd <;> rw [h1] <;> decide
+  have hs := sumOver_all_known hwt hkn hl hsum
+  simp only [calcAdd, if_neg hweight, if_neg he, if_neg hpu, hsub, bind, Except.bind, hsubs_ne, hs, hn,
+    Bool.false_eq_true, if_false]
+
+/-! ### the builder's order -/
+
+theorem mem_insertKeyed (x y : Keyed) (l : List Keyed) : y ∈ insertKeyed x l ↔ y = x ∨ y ∈ l := by
+  induction l with
+  | nil => simp [insertKeyed]
+  | cons d r ih =>
+    unfold insertKeyed
+    split
+    · simp only [List.mem_cons]
+    · simp only [List.mem_cons, ih]; tauto
+
+theorem mem_sortKeyed (y : Keyed) (l : List Keyed) : y ∈ sortKeyed l ↔ y ∈ l := by
+  induction l with
+  | nil => simp [sortKeyed]
+  | cons c r ih => simp only [sortKeyed, mem_insertKeyed, ih, List.mem_cons]
+
+theorem length_insertKeyed (x : Keyed) (l : List Keyed) : (insertKeyed x l).length = l.length + 1 := by
+  induction l with
+  | nil => rfl
+  | cons d r ih =>
+    unfold insertKeyed
+    split
+    · simp
+    · simp [ih]
+
+theorem length_sortKeyed (l : List Keyed) : (sortKeyed l).length = l.length := by
+  induction l with
+  | nil => rfl
+  | cons c r ih => simp [sortKeyed, length_insertKeyed, ih]
+
+theorem keyLe_total (a b : Option Int × Int) : keyLe a b = true ∨ keyLe b a = true := by
+  obtain ⟨a1, a2⟩ := a
+  obtain ⟨b1, b2⟩ := b
+  cases a1 <;> cases b1 <;> simp [keyLe] <;> omega
+
+theorem keyLe_trans (a b c : Option Int × Int) (h1 : keyLe a b = true) (h2 : keyLe b c = true) :
+    keyLe a c = true := by
+  obtain ⟨a1, a2⟩ := a
+  obtain ⟨b1, b2⟩ := b
+  obtain ⟨c1, c2⟩ := c
+  cases a1 <;> cases b1 <;> cases c1 <;> simp [keyLe] at h1 h2 ⊢ <;> omega
+
+/-- consumed in non-decreasing key order -/
+def KeySorted : List Keyed → Prop
+  | [] => True
+  | x :: r => (∀ y, y ∈ r → keyLe x.1 y.1 = true) ∧ KeySorted r
+
+theorem keySorted_insert (x : Keyed) (l : List Keyed) (h : KeySorted l) : KeySorted (insertKeyed x l) := by
+  induction l with
+  | nil => simp [insertKeyed, KeySorted]
+  | cons d r ih =>
+    unfold insertKeyed
+    split
+    · rename_i hle
+      refine ⟨?_, h⟩
+      intro y hy
+      rcases List.mem_cons.mp hy with rfl | hy
+      · exact hle
+      · exact keyLe_trans _ _ _ hle (h.1 y hy)
+    · rename_i hle
+      refine ⟨?_, ih h.2⟩
+      intro y hy
+      rcases (mem_insertKeyed x y r).mp hy with rfl | hy
+      · rcases keyLe_total d.1 y.1 with h' | h'
+        · exact h'
+        · exact absurd h' hle
+      · exact h.1 y hy
+
+theorem keySorted_sort (l : List Keyed) : KeySorted (sortKeyed l) := by
+  induction l with
+  | nil => trivial
+  | cons c r ih => exact keySorted_insert c _ ih
+
+theorem keyAll_spec {doc : List (Period × Vec)} {ks : List Keyed} (h : keyAll doc = .ok ks) :
+    ks.map (·.2) = doc ∧ ∀ x, x ∈ ks → feedKey x.2.1 = .ok x.1 := by
+  induction doc generalizing ks with
+  | nil => simp only [keyAll] at h; injection h with h; subst h; simp
+  | cons pv r ih =>
+    simp only [keyAll] at h
+    cases hk : feedKey pv.1 with
+    | error e => rw [hk] at h; cases h
+    | ok k =>
+      rw [hk] at h
+      simp only at h
+      cases hr : keyAll r with
+      | error e => rw [hr] at h; cases h
+      | ok ks' =>
+        rw [hr] at h
+        injection h with h
+        subst h
+        obtain ⟨h1, h2⟩ := ih hr
+        refine ⟨by simp [h1], ?_⟩
+        intro x hx
+        rcases List.mem_cons.mp hx with rfl | hx
+        · exact hk
+        · exact h2 x hx
+
+/-- what `finalize_variables_init` consumes is a rearrangement of the document -/
+theorem builderFeed_inv {var : VarSpec} {s t : Store} {doc : List (Period × Vec)}
+    (h : builderFeed var s doc = .ok t) :
+    ∃ ks, keyAll doc = .ok ks ∧ feedAll var s ((sortKeyed ks).map (·.2)) = .ok t ∧
+      (∀ pv, pv ∈ (sortKeyed ks).map (·.2) ↔ pv ∈ doc) ∧ KeySorted (sortKeyed ks) ∧
+      ((sortKeyed ks).map (·.2)).length = doc.length := by
+  unfold builderFeed at h
+  cases hk : keyAll doc with
+  | error e => rw [hk] at h; cases h
+  | ok ks =>
+    rw [hk] at h
+    obtain ⟨h1, _⟩ := keyAll_spec hk
+    refine ⟨ks, rfl, h, ?_, keySorted_sort ks, ?_⟩
+    · intro pv
+      rw [← h1]
+      simp only [List.mem_map]
+      constructor
+      · rintro ⟨x, hx, rfl⟩; exact ⟨x, (mem_sortKeyed x ks).mp hx, rfl⟩
+      · rintro ⟨x, hx, rfl⟩; exact ⟨x, (mem_sortKeyed x ks).mpr hx, rfl⟩
+    · rw [List.length_map, length_sortKeyed, ← h1, List.length_map]
+
+/-! ### `calculate` piece by piece -/
+
+/-- on a piece of the variable's definition period `calculate` is one step of the sum of `calculate_add` -/
+theorem calcOne_piece {var : VarSpec} (hn : var.neutralized = false) (he : var.defUnit ≠ .eternity)
+    (s : Store) (q : Period) (hq : q.unit = var.defUnit ∧ q.size = 1) :
+    calcOne var s q = .ok (match sget s q with | some v => v | none => vzero var.count,
+      (sumStep var.count (vzero var.count, s) q).2) := by
+  unfold calcOne
+  rw [if_neg (by rintro ⟨_, h | h⟩ <;> [exact h hq.1; exact h hq.2])]
+  simp only [getArray, hn, Bool.false_eq_true, if_false, skey, if_neg he, sumStep]
+  cases sget s q <;> rfl
+
+/-! ### the loops with `holder._set` -/
+
+theorem truncR_int (n : Int) : truncR (n : Rat) = (n : Rat) := by
+  simp [truncR]
+
+theorem truncR_idem (x : Rat) : truncR (truncR x) = truncR x := by
+  unfold truncR
+  exact truncR_int _
+
+theorem castVec_idem (k : VKind) (v : Vec) : castVec k (castVec k v) = castVec k v := by
+  cases k
+  · rfl
+  · simp only [castVec, List.map_map]
+    apply List.map_congr_left
+    intro x _
+    exact truncR_idem x
+  · rfl
+
+/-- `holder._set` on one definition period never raises for a vector of the right length: it stores the
+converted vector -/
+theorem holderSet_piece {var : VarSpec} (he : var.defUnit ≠ .eternity) (s : Store) (q : Period)
+    (hq : q.unit = var.defUnit ∧ q.size = 1) (w : Vec) (hl : w.length = var.count) :
+    holderSet var s q w = .ok (sput s q (castVec var.kind w)) := by
+  unfold holderSet toArray
+  have h1 : ¬ (w.length ≠ var.count) := by simpa using hl
+  have h2 : ¬ (var.defUnit ≠ q.unit ∨ q.size > 1) := by
+    rintro (h | h)
+    · exact h hq.1.symm
+    · omega
+  simp only [if_neg h1, bind, Except.bind, if_pos he, if_neg h2]
+
+/-- the loops of `dispatch` / `divide` written with `holder._set` (as in the code) are the pure loops of
+the model: on pieces of one definition period `_set` cannot raise, and its second conversion to the
+variable's dtype is where an `int` variable's share is truncated -/
+theorem fillLoop_eq {var : VarSpec} (hn : var.neutralized = false) (he : var.defUnit ≠ .eternity)
+    (w : Vec) (hl : w.length = var.count) (subs : List Period)
+    (hu : ∀ q, q ∈ subs → q.unit = var.defUnit ∧ q.size = 1) (s : Store) :
+    fillLoop var w s subs = .ok (dispatchOn s subs (castVec var.kind w)) := by
+  induction subs generalizing s with
+  | nil => rfl
+  | cons q r ih =>
+    have hq := hu q List.mem_cons_self
+    have hstep : fillStepSet var w s q = .ok (fillStep (castVec var.kind w) s q) := by
+      unfold fillStepSet fillStep
+      simp only [getArray, hn, Bool.false_eq_true, if_false, skey, if_neg he]
+      cases hs : sget s q with
+      | none => exact holderSet_piece he s q hq w hl
+      | some v => rfl
+    simp only [fillLoop, hstep, dispatchOn, List.foldl_cons]
+    exact ih (fun x hx => hu x (List.mem_cons_of_mem _ hx)) _
+
+theorem offset_unit_size {p q : Period} {off : Off} {u : Option DUnit} (h : p.offset off u = .ok q) :
+    q.unit = p.unit ∧ q.size = p.size := by
+  unfold Period.offset at h
+  cases hi : instOffset p.start off (u.getD p.unit) with
+  | error e => simp [hi, bind, Except.bind] at h
+  | ok o =>
+    cases o with
+    | none => simp [hi, bind, Except.bind] at h
+    | some d =>
+      simp only [hi, bind, Except.bind] at h
+      injection h with h
+      subst h
+      exact ⟨rfl, rfl⟩
+
+/-- every piece the walk visits is one definition period, whatever the input period -/
+theorem walkFrom_units (after : Date) (fuel : Nat) (sub : Period) (qs : List Period)
+    (h : walkFrom after fuel sub = .ok qs) : ∀ q, q ∈ qs → q.unit = sub.unit ∧ q.size = sub.size := by
+  induction fuel generalizing sub qs with
+  | zero => simp [walkFrom] at h
+  | succ f ih =>
+    simp only [walkFrom] at h
+    split at h
+    · cases ho : sub.offset (.n 1) none with
+      | error e => simp [ho, bind, Except.bind] at h
+      | ok nxt =>
+        cases hr : walkFrom after f nxt with
+        | error e => simp [ho, hr, bind, Except.bind] at h
+        | ok rest =>
+          simp only [ho, hr, bind, Except.bind] at h
+          injection h with h
+          subst h
+          intro q hq
+          rcases List.mem_cons.mp hq with rfl | hq
+          · exact ⟨rfl, rfl⟩
+          · obtain ⟨h1, h2⟩ := ih nxt rest hr q hq
+            obtain ⟨h3, h4⟩ := offset_unit_size ho
+            exact ⟨h1.trans h3, h2.trans h4⟩
+    · injection h with h; subst h; intro q hq; cases hq
+
+theorem walk_units {defU : DUnit} {p : Period} {subs : List Period} (h : walk defU p = .ok subs) :
+    ∀ q, q ∈ subs → q.unit = defU ∧ q.size = 1 := by
+  unfold walk at h
+  cases hi : instOffset p.start (.n p.size) p.unit with
+  | error e => simp [hi, bind, Except.bind] at h
+  | ok o =>
+    cases o with
+    | none => simp [hi, bind, Except.bind] at h
+    | some d =>
+      simp only [hi, bind, Except.bind] at h
+      exact walkFrom_units _ _ _ _ h
+
+/-! ### `calculate` piece by piece -/
+
+/-- `calculate` on every piece in turn, the results added up (what a caller does by hand) -/
+def calcEach (var : VarSpec) : Vec × Store → List Period → Except String (Vec × Store)
+  | acc, [] => .ok acc
+  | acc, q :: r =>
+    match calcOne var acc.2 q with
+    | .ok (v, s') => calcEach var (vadd acc.1 v, s') r
+    | .error e => .error e
+
+theorem calcEach_eq_fold {var : VarSpec} (hn : var.neutralized = false) (he : var.defUnit ≠ .eternity)
+    (subs : List Period) (hu : ∀ q, q ∈ subs → q.unit = var.defUnit ∧ q.size = 1) (acc : Vec × Store) :
+    calcEach var acc subs = .ok (subs.foldl (sumStep var.count) acc) := by
+  induction subs generalizing acc with
+  | nil => rfl
+  | cons q r ih =>
+    have hq := hu q List.mem_cons_self
+    have hc : ¬ (var.defUnit ≠ .eternity ∧ (q.unit ≠ var.defUnit ∨ q.size ≠ 1)) := by
+      rintro ⟨_, h | h⟩
+      · exact h hq.1
+      · exact h hq.2
+    simp only [calcEach, calcOne, if_neg hc, getArray, hn, Bool.false_eq_true, if_false, skey, if_neg he,
+      List.foldl_cons]
+    cases hs : sget acc.2 q with
+    | none =>
+      simp only [sumStep, hs]
+      exact ih (fun x hx => hu x (List.mem_cons_of_mem _ hx)) _
+    | some v =>
+      simp only [sumStep, hs]
+      exact ih (fun x hx => hu x (List.mem_cons_of_mem _ hx)) _
+
+/-! ### the week family: pieces of one week, one weekday — and days inside week periods -/
+
+/-- the walk by steps of `k` days: weeks (`k = 7`), days and weekdays (`k = 1`) -/
+theorem walk_daysteps (u : DUnit) (k : Int) (hk : (u = .week ∧ k = 7) ∨ ((u = .day ∨ u = .weekday) ∧ k = 1))
+    (start : Date) (hv : start.Valid) (N : Nat) (hay : (addDays start (k * N)).y ≤ 9999) (fuel : Nat)
+    (hf : (k * N).toNat < fuel) :
+    ∃ qs, walkFrom (addDays start (k * N)) fuel ⟨u, start, 1⟩ = .ok qs ∧ qs.length = N ∧
+      (∀ q, q ∈ qs → q.unit = u ∧ q.size = 1) ∧ Tiles qs (ord start) (ord start + k * N - 1) ∧
+      qs = (List.range N).map (fun (i : Nat) => (⟨u, addDays start (k * (i : Int)), 1⟩ : Period)) := by
+  have hk1 : 1 ≤ k := by rcases hk with ⟨_, h⟩ | ⟨_, h⟩ <;> omega
+  let f : Nat → Date := fun i => addDays start (k * (i : Int))
+  have hnn : ∀ i : Nat, 0 ≤ k * (i : Int) := fun i => Int.mul_nonneg (by omega) (by omega)
+  have hf0 : f 0 = start := by
+    show addDays start (k * ((0 : Nat) : Int)) = start
+    simp only [addDays, Int.natCast_zero, Int.mul_zero, Int.add_zero]
+    exact ofOrd_ord start hv
+  have hord : ∀ i : Nat, ord (f i) = ord start + k * i ∧ (f i).Valid := fun i => ord_addDays start hv _ (hnn i)
+  have hmono : ∀ i j : Nat, i ≤ j → k * (i : Int) ≤ k * (j : Int) := by
+    intro i j hij
+    exact Int.mul_le_mul_of_nonneg_left (by omega) (by omega)
+  have hsucc : ∀ i : Nat, k * ((i + 1 : Nat) : Int) = k * (i : Int) + k := by
+    intro i; push_cast; rw [Int.mul_add, Int.mul_one]
+  have hva : (addDays start (k * N)).Valid := (hord N).2
+  have hyear : ∀ i : Nat, i ≤ N → (f i).y ≤ 9999 := by
+    intro i hi
+    have := year_le_of_ord_le (f i) (f N) (hord i).2 (hord N).2 (by rw [(hord i).1, (hord N).1]; have := hmono i N hi; omega)
+    exact Int.le_trans this hay
+  have hstep : ∀ i : Nat, addDays (f i) k = f (i + 1) := by
+    intro i
+    show ofOrd (ord (f i) + k) = ofOrd (ord start + k * ((i + 1 : Nat) : Int))
+    rw [(hord i).1, hsucc i, Int.add_assoc]
+  have key := walkFrom_seq u (addDays start (k * N)) f N
+    (by intro i hi
+        rw [lt_iff_ord_lt _ _ (hord i).2 hva]
+        show ord (f i) < ord (f N)
+        rw [(hord i).1, (hord N).1]
+        have h1 := hmono (i + 1) N (by omega)
+        have h2 := hsucc i
+        omega)
+    (by intro i hi
+        have h1 : dateOk (f i) = true := dateOk_of _ (hord i).2 (hyear i (by omega))
+        have h2 : chk (f (i + 1)) = .ok (f (i + 1)) := chk_ok _ (hord (i + 1)).2.1 (hyear (i + 1) (by omega))
+        rcases hk with ⟨rfl, rfl⟩ | ⟨rfl | rfl, rfl⟩
+        · have hs := hstep i
+          simp only [Period.offset, Option.getD_none, instOffset, h1, Int.mul_one, hs, h2]
+          simp [bind, Except.bind, Except.map]
+        · have hs := hstep i
+          simp only [Period.offset, Option.getD_none, instOffset, h1, hs, h2]
+          simp [bind, Except.bind, Except.map]
+        · have hs := hstep i
+          simp only [Period.offset, Option.getD_none, instOffset, h1, hs, h2]
+          simp [bind, Except.bind, Except.map])
+    (by rw [lt_iff_ord_lt _ _ (hord N).2 hva]
+        show ¬ (ord (f N) < ord (f N))
+        omega)
+    (by intro i hi
+        have h2 := hsucc i
+        rcases hk with ⟨rfl, rfl⟩ | ⟨rfl | rfl, rfl⟩ <;>
+          (simp only [Period.hi]; rw [(hord (i + 1)).1, (hord i).1]; omega))
+    (by intro i hi
+        have h2 := hsucc i
+        rw [(hord (i + 1)).1, (hord i).1]; omega)
+    N 0 fuel (by omega) (by
+      have : (k * (N : Int)).toNat ≥ N := by
+        have h1 : (N : Int) ≤ k * N := by
+          have := Int.mul_le_mul_of_nonneg_right hk1 (show (0 : Int) ≤ N by omega)
+          omega
+        omega
+      omega)
+  rw [hf0, ← List.range_eq_range'] at key
+  obtain ⟨qs, h1, h2, h3, h4, h5⟩ := key
+  refine ⟨qs, h1, h2, h3, ?_, h5⟩
+  have : ord (f N) = ord start + k * N := (hord N).1
+  rw [this] at h4
+  exact h4
+
+/-- length in days of a period of the week family (or a day range) -/
+def spanW (p : Period) : Int := if p.unit = .week then 7 * p.size else p.size
+
+/-- week and weekday variables, and day variables given week / weekday periods: any valid first day -/
+def WeekDomain (p : Period) (defU : DUnit) : Prop :=
+  p.start.Valid ∧ 1 ≤ p.size ∧ (addDays p.start (spanW p)).y ≤ 9999 ∧
+  ((defU = .week ∧ p.unit = .week) ∨
+   ((defU = .weekday ∨ defU = .day) ∧ (p.unit = .week ∨ p.unit = .weekday ∨ p.unit = .day)))
+
+instance (p : Period) (defU : DUnit) : Decidable (WeekDomain p defU) := by
+  unfold WeekDomain; infer_instance
+
+theorem spanW_week (s : Date) (n : Int) : spanW ⟨.week, s, n⟩ = 7 * n := by simp [spanW]
+theorem spanW_weekday (s : Date) (n : Int) : spanW ⟨.weekday, s, n⟩ = n := by simp [spanW]
+theorem spanW_day (s : Date) (n : Int) : spanW ⟨.day, s, n⟩ = n := by simp [spanW]
+
+def pieceCountW (p : Period) (defU : DUnit) : Nat :=
+  if defU = .week then p.size.toNat else (spanW p).toNat
+
+def piecesW (p : Period) (defU : DUnit) : List Period :=
+  (List.range (pieceCountW p defU)).map (fun (i : Nat) =>
+    (⟨defU, addDays p.start ((if defU = .week then 7 else 1) * (i : Int)), 1⟩ : Period))
+
+theorem walk_tiles_week (p : Period) (defU : DUnit) (h : WeekDomain p defU) :
+    ∃ qs, walk defU p = .ok qs ∧ qs.length = pieceCountW p defU ∧ qs ≠ [] ∧
+      (∀ q, q ∈ qs → q.unit = defU ∧ q.size = 1) ∧ Tiles qs p.lo p.hi ∧ qs = piecesW p defU := by
+  obtain ⟨u, start, size⟩ := p
+  obtain ⟨hv, hs, hay, hcase⟩ := h
+  simp only at hv hs hcase hay
+  have hne : ∀ (qs : List Period) (n : Nat), qs.length = n → 0 < n → qs ≠ [] := by
+    intro qs n h1 h2 e; subst e; simp at h1; omega
+  -- the instant after the period
+  have hspan : 1 ≤ spanW ⟨u, start, size⟩ := by unfold spanW; simp only; split <;> omega
+  obtain ⟨hoa, hva⟩ := ord_addDays start hv (spanW ⟨u, start, size⟩) (by omega)
+  have hsy : start.y ≤ 9999 := by
+    have := year_le_of_ord_le start _ hv hva (by omega); omega
+  have hoff : instOffset start (.n size) u = .ok (some (addDays start (spanW ⟨u, start, size⟩))) := by
+    rcases hcase with ⟨_, rfl⟩ | ⟨_, rfl | rfl | rfl⟩
+    · rw [spanW_week] at hay hva ⊢
+      simp only [instOffset, dateOk_of start hv hsy, chk_ok _ hva.1 hay]
+      simp [Except.map]
+    · rw [spanW_week] at hay hva ⊢
+      simp only [instOffset, dateOk_of start hv hsy, chk_ok _ hva.1 hay]
+      simp [Except.map]
+    · rw [spanW_weekday] at hay hva ⊢
+      simp only [instOffset, dateOk_of start hv hsy, chk_ok _ hva.1 hay]
+      simp [Except.map]
+    · rw [spanW_day] at hay hva ⊢
+      simp only [instOffset, dateOk_of start hv hsy, chk_ok _ hva.1 hay]
+      simp [Except.map]
+  have hfuel : ((ord (addDays start (spanW ⟨u, start, size⟩)) - ord start).toNat + 1) = (spanW ⟨u, start, size⟩).toNat + 1 := by
+    rw [hoa]; congr 1; omega
+  rcases hcase with ⟨rfl, rfl⟩ | ⟨hdu, hpu⟩
+  · -- pieces of one week in a week period
+    have e : (7 : Int) * ((size.toNat : Nat) : Int) = spanW ⟨.week, start, size⟩ := by simp [spanW]; omega
+    have := walk_daysteps .week 7 (Or.inl ⟨rfl, rfl⟩) start hv size.toNat (by rw [e]; exact hay)
+      ((spanW ⟨.week, start, size⟩).toNat + 1) (by rw [e]; omega)
+    rw [e] at this
+    obtain ⟨qs, hw, hl, hu, ht, hexp⟩ := this
+    refine ⟨qs, ?_, by simpa [pieceCountW] using hl, hne qs _ hl (by omega), hu, ?_, ?_⟩
+    · simp only [walk, hoff, bind, Except.bind, hfuel]; exact hw
+    · simpa [Period.lo, Period.hi, spanW] using ht
+    · rw [hexp]; simp [piecesW, pieceCountW]
+  · -- pieces of one day / weekday
+    have e : (1 : Int) * (((spanW ⟨u, start, size⟩).toNat : Nat) : Int) = spanW ⟨u, start, size⟩ := by omega
+    have := walk_daysteps defU 1 (Or.inr ⟨by rcases hdu with h | h <;> simp [h], rfl⟩) start hv
+      (spanW ⟨u, start, size⟩).toNat (by rw [e]; exact hay)
+      ((spanW ⟨u, start, size⟩).toNat + 1) (by rw [e]; omega)
+    rw [e] at this
+    obtain ⟨qs, hw, hl, hu, ht, hexp⟩ := this
+    have hdw : defU ≠ .week := by rcases hdu with h | h <;> rw [h] <;> decide
+    refine ⟨qs, ?_, by simpa [pieceCountW, hdw] using hl, hne qs _ hl (by omega), hu, ?_, ?_⟩
+    · simp only [walk, hoff, bind, Except.bind, hfuel]; exact hw
+    · rcases hpu with rfl | rfl | rfl <;> simpa [Period.lo, Period.hi, spanW] using ht
+    · rw [hexp]; simp [piecesW, pieceCountW, hdw]
+
+theorem offset_weekdays (u0 : DUnit) (start : Date) (hv : start.Valid) (hsy : start.y ≤ 9999) (i : Nat)
+    (hy : (addDays start (i : Int)).y ≤ 9999) :
+    Period.offset ⟨u0, start, 1⟩ (.n (Int.ofNat i)) (some .weekday) = .ok ⟨u0, addDays start (i : Int), 1⟩ := by
+  have hva := (ord_addDays start hv (i : Int) (by omega)).2
+  simp only [Period.offset, Option.getD_some, instOffset, dateOk_of start hv hsy, Int.ofNat_eq_natCast,
+    chk_ok _ hva.1 hy]
+  simp [bind, Except.bind, Except.map]
+
+theorem offset_weeks (u0 : DUnit) (start : Date) (hv : start.Valid) (hsy : start.y ≤ 9999) (i : Nat)
+    (hy : (addDays start (7 * (i : Int))).y ≤ 9999) :
+    Period.offset ⟨u0, start, 1⟩ (.n (Int.ofNat i)) (some .week) = .ok ⟨u0, addDays start (7 * (i : Int)), 1⟩ := by
+  have hva := (ord_addDays start hv (7 * (i : Int)) (by omega)).2
+  simp only [Period.offset, Option.getD_some, instOffset, dateOk_of start hv hsy, Int.ofNat_eq_natCast,
+    chk_ok _ hva.1 hy]
+  simp [bind, Except.bind, Except.map]
+
+/-- years along a run of days stay below the year of its end -/
+theorem addDays_year_le (start : Date) (hv : start.Valid) (a b : Int) (ha : 0 ≤ a) (hab : a ≤ b)
+    (hy : (addDays start b).y ≤ 9999) : (addDays start a).y ≤ 9999 := by
+  obtain ⟨h1, h2⟩ := ord_addDays start hv a ha
+  obtain ⟨h3, h4⟩ := ord_addDays start hv b (by omega)
+  have := year_le_of_ord_le _ _ h2 h4 (by rw [h1, h3]; omega)
+  omega
+
+/-- a week variable's pieces are the ISO weeks only when the period starts on a Monday -/
+def AlignedW (p : Period) (defU : DUnit) : Prop := defU = .week → startOfWeek p.start = p.start
+
+instance (p : Period) (defU : DUnit) : Decidable (AlignedW p defU) := by unfold AlignedW; infer_instance
+
+theorem subperiods_eq_piecesW (p : Period) (defU : DUnit) (h : WeekDomain p defU) (hal : AlignedW p defU) :
+    p.subperiods defU = .ok (piecesW p defU) := by
+  obtain ⟨u, start, size⟩ := p
+  obtain ⟨hv, hs, hay, hcase⟩ := h
+  simp only at hv hs hcase hay
+  have hspan : 1 ≤ spanW ⟨u, start, size⟩ := by unfold spanW; simp only; split <;> omega
+  have hsy : start.y ≤ 9999 := by
+    obtain ⟨hoa, hva⟩ := ord_addDays start hv (spanW ⟨u, start, size⟩) (by omega)
+    have := year_le_of_ord_le start _ hv hva (by omega); omega
+  rcases hcase with ⟨rfl, rfl⟩ | ⟨hdu, hpu⟩
+  · have hmon : startOfWeek start = start := hal rfl
+    rw [spanW_week] at hay
+    have hw : ¬ (unitWeight DUnit.week < unitWeight DUnit.week) := by decide
+    have hoff : offsetsFrom ⟨.week, start, 1⟩ .week size =
+        .ok ((List.range size.toNat).map (fun (i : Nat) => (⟨.week, addDays start (7 * (i : Int)), 1⟩ : Period))) := by
+      apply offsetsFrom_eq
+      intro i hi
+      apply offset_weeks .week start hv hsy
+      exact addDays_year_le start hv _ _ (by omega) (by omega) hay
+    simp only [Period.subperiods, if_neg hw, Period.firstWeek, instOffset, dateOk_of start hv hsy, hmon,
+      chk_ok _ hv.1 hsy, Period.sizeInWeeks, bind, Except.bind, Except.map]
+    simp
+    rw [hoff]
+    simp [piecesW, pieceCountW]
+  · rcases hdu with rfl | rfl
+    · -- weekday pieces
+      have hoff : ∀ n : Int, n = spanW ⟨u, start, size⟩ → offsetsFrom ⟨.weekday, start, 1⟩ .weekday n =
+          .ok ((List.range n.toNat).map (fun (i : Nat) => (⟨.weekday, addDays start (i : Int), 1⟩ : Period))) := by
+        intro n hn
+        apply offsetsFrom_eq
+        intro i hi
+        apply offset_weekdays .weekday start hv hsy
+        exact addDays_year_le start hv _ _ (by omega) (by omega) hay
+      rcases hpu with rfl | rfl | rfl
+      · have hw : ¬ (unitWeight DUnit.week < unitWeight DUnit.weekday) := by decide
+        have := hoff (size * 7) (by rw [spanW_week]; omega)
+        simp only [Period.subperiods, if_neg hw, Period.firstWeekday, Period.sizeInWeekdays, bind, Except.bind, this]
+        simp [piecesW, pieceCountW, spanW_week]
+        congr 2; omega
+      · have hw : ¬ (unitWeight DUnit.weekday < unitWeight DUnit.weekday) := by decide
+        have := hoff size (by rw [spanW_weekday])
+        simp only [Period.subperiods, if_neg hw, Period.firstWeekday, Period.sizeInWeekdays, bind, Except.bind, this]
+        simp [piecesW, pieceCountW, spanW_weekday]
+      · have hw : ¬ (unitWeight DUnit.day < unitWeight DUnit.weekday) := by decide
+        have := hoff size (by rw [spanW_day])
+        simp only [Period.subperiods, if_neg hw, Period.firstWeekday, Period.sizeInWeekdays, bind, Except.bind, this]
+        simp [piecesW, pieceCountW, spanW_day]
+    · -- day pieces
+      have hoff : ∀ n : Int, n = spanW ⟨u, start, size⟩ → offsetsFrom ⟨.day, start, 1⟩ .day n =
+          .ok ((List.range n.toNat).map (fun (i : Nat) => (⟨.day, addDays start (i : Int), 1⟩ : Period))) := by
+        intro n hn
+        apply offsetsFrom_eq
+        intro i hi
+        apply offset_days .day start hv hsy
+        exact addDays_year_le start hv _ _ (by omega) (by omega) hay
+      rcases hpu with rfl | rfl | rfl
+      · have hw : ¬ (unitWeight DUnit.week < unitWeight DUnit.day) := by decide
+        have := hoff (size * 7) (by rw [spanW_week]; omega)
+        simp only [Period.subperiods, if_neg hw, Period.firstDay, Period.sizeInDays, bind, Except.bind, this]
+        simp [piecesW, pieceCountW, spanW_week]
+        congr 2; omega
+      · have hw : ¬ (unitWeight DUnit.weekday < unitWeight DUnit.day) := by decide
+        have := hoff size (by rw [spanW_weekday])
+        simp only [Period.subperiods, if_neg hw, Period.firstDay, Period.sizeInDays, bind, Except.bind, this]
+        simp [piecesW, pieceCountW, spanW_weekday]
+      · have hw : ¬ (unitWeight DUnit.day < unitWeight DUnit.day) := by decide
+        have := hoff size (by rw [spanW_day])
+        simp only [Period.subperiods, if_neg hw, Period.firstDay, Period.sizeInDays, bind, Except.bind, this]
+        simp [piecesW, pieceCountW, spanW_day]
+
+theorem walk_eq_subperiodsW (p : Period) (defU : DUnit) (h : WeekDomain p defU) (hal : AlignedW p defU) :
+    walk defU p = p.subperiods defU := by
+  obtain ⟨qs, hw, _, _, _, _, hq⟩ := walk_tiles_week p defU h
+  rw [hw, hq, subperiods_eq_piecesW p defU h hal]
+
+/-! ### order independence as a permutation statement -/
+
+abbrev DCall := List Period × Vec
+
+/-- nested-or-disjoint families in which inputs with equally many pieces are on the SAME pieces or on
+disjoint ones (always the case for the piece lists of periods of one tiling family: two different
+periods with equally many pieces that overlap — calendar year 2018 and rolling year 2018-07 — are
+excluded, and for them the order does matter) -/
+def StrictLaminar (calls : List DCall) : Prop :=
+  ∀ c, c ∈ calls → ∀ d, d ∈ calls → d.1.length ≤ c.1.length →
+    (d.1.length < c.1.length ∧ ∀ q, q ∈ d.1 → q ∈ c.1) ∨ (∀ q, q ∈ c.1 → q ∉ d.1) ∨ d.1 = c.1
+
+instance (calls : List DCall) : Decidable (StrictLaminar calls) := by
+  unfold StrictLaminar; infer_instance
+
+/-- the same pieces twice in a row: the second amount must repeat the first -/
+theorem divide_same_twice {n : Nat} {s t : Store} {l : List Period} {a b : Vec} (hwf : WF n s)
+    (h1 : a.length = n) (h2 : b.length = n) (hr : runDivide .num s [(l, a), (l, b)] = .ok t) : b = a := by
+  obtain ⟨s1, hd1, hd2⟩ := (runDivide_two _ _ _ _ _ _ _).mp hr
+  subst h1
+  obtain ⟨c, hcl, hf, hsum, _⟩ := divideOn_ok_spec hwf hd1
+  have hw1 : WF b.length s1 := h2 ▸ filled_wf hf hwf hcl
+  have hu : unknownCount s1 l = 0 := (unknownCount_zero_iff s1 l).mpr (fun q hq => filled_known hf q hq)
+  by_contra hne
+  have herr : ∃ e, divideOn .num s1 l b = .error e := by
+    apply (divideOn_error_iff .num hw1).mpr
+    refine ⟨hu, ?_⟩
+    by_contra hcon
+    apply hne
+    apply vec_ext h2
+    intro i hi
+    by_contra hd
+    exact hcon ⟨i, hi, by rw [knownSum_filled hf, ← hsum i]; exact hd⟩
+  obtain ⟨e, he⟩ := herr
+  rw [he] at hd2; cases hd2
+
+/-- an input moved from the front past inputs that have at most as many pieces -/
+theorem runDivide_move_past {n : Nat} (c : DCall) (hc : c.2.length = n) (A B : List DCall)
+    (hA : ∀ d, d ∈ A → d.2.length = n)
+    (hlam : ∀ d, d ∈ A → (∀ q, q ∈ d.1 → q ∈ c.1) ∨ (∀ q, q ∈ c.1 → q ∉ d.1) ∨ d.1 = c.1)
+    (s t : Store) (hwf : WF n s) (h : runDivide .num s (c :: (A ++ B)) = .ok t) :
+    ∃ t', runDivide .num s (A ++ c :: B) = .ok t' ∧ SameStore t' t := by
+  induction A generalizing s t with
+  | nil => exact ⟨t, h, sameStore_refl t⟩
+  | cons d r ih =>
+    obtain ⟨s2, h2, hrest⟩ := (runDivide_cons2 _ _ _ _ _ _).mp h
+    have hd := hA d List.mem_cons_self
+    obtain ⟨c1, c2⟩ := c
+    obtain ⟨d1, d2⟩ := d
+    simp only at hc hd
+    have hswap : ∃ s2', runDivide .num s [(d1, d2), (c1, c2)] = .ok s2' ∧ SameStore s2' s2 := by
+      rcases hlam (d1, d2) List.mem_cons_self with hin | hdis | heq
+      · exact divide_swap_nested hwf hc hd hin h2
+      · exact divide_swap_disjoint hwf hc hd hdis h2
+      · simp only at heq
+        subst heq
+        have := divide_same_twice hwf hc hd h2
+        subst this
+        exact ⟨s2, h2, sameStore_refl s2⟩
+    obtain ⟨s2', hs2', hsame2⟩ := hswap
+    obtain ⟨t2, ht2, hsamet⟩ := runDivide_congr (sameStore_symm hsame2) hrest
+    obtain ⟨sd, hdd, hcc⟩ := (runDivide_two _ _ _ _ _ _ _).mp hs2'
+    have hwd : WF n sd := divideOn_wf hwf hd hdd
+    have hrun : runDivide .num sd ((c1, c2) :: (r ++ B)) = .ok t2 := by
+      simp only [runDivide, hcc]; exact ht2
+    obtain ⟨t3, ht3, hsame3⟩ := ih (fun x hx => hA x (List.mem_cons_of_mem _ hx))
+      (fun x hx => hlam x (List.mem_cons_of_mem _ hx)) sd t2 hwd hrun
+    refine ⟨t3, ?_, sameStore_trans hsame3 (sameStore_symm hsamet)⟩
+    simp only [List.cons_append, runDivide, hdd]
+    exact ht3
+
+/-- non-decreasing number of pieces -/
+def ByLength (l : List DCall) : Prop := l.Pairwise (fun c d => c.1.length ≤ d.1.length)
+
+/-- **any accepted order against any shortest-first arrangement of the same inputs** -/
+theorem runDivide_perm_sorted {n : Nat} (calls : List DCall) (hlen : ∀ d, d ∈ calls → d.2.length = n)
+    (hlam : StrictLaminar calls) (s t : Store) (hwf : WF n s) (h : runDivide .num s calls = .ok t)
+    (calls' : List DCall) (hp : calls'.Perm calls) (hs : ByLength calls') :
+    ∃ t', runDivide .num s calls' = .ok t' ∧ SameStore t' t := by
+  induction calls generalizing s t calls' with
+  | nil =>
+    have : calls' = [] := List.Perm.eq_nil hp
+    subst this
+    exact ⟨t, h, sameStore_refl t⟩
+  | cons c r ih =>
+    have hcm : c ∈ calls' := hp.symm.subset List.mem_cons_self
+    obtain ⟨A, B, rfl⟩ := List.append_of_mem hcm
+    have hp' : (A ++ B).Perm r := by
+      have h1 : (c :: (A ++ B)).Perm (A ++ c :: B) := List.perm_middle.symm
+      exact (h1.trans hp).cons_inv
+    have hs' : ByLength (A ++ B) := by
+      unfold ByLength at hs ⊢
+      exact hs.sublist (List.Sublist.append (List.Sublist.refl A) (List.sublist_cons_self c B))
+    obtain ⟨c1, c2⟩ := c
+    simp only [runDivide] at h
+    cases hd : divideOn .num s c1 c2 with
+    | error e => rw [hd] at h; cases h
+    | ok s1 =>
+      rw [hd] at h
+      have hc := hlen (c1, c2) List.mem_cons_self
+      have hw1 : WF n s1 := divideOn_wf hwf hc hd
+      have hlam' : StrictLaminar r := fun a ha b hb => hlam a (List.mem_cons_of_mem _ ha) b (List.mem_cons_of_mem _ hb)
+      obtain ⟨t1, ht1, hsame1⟩ := ih (fun d hd => hlen d (List.mem_cons_of_mem _ hd)) hlam' s1 t hw1 h (A ++ B) hp' hs'
+      have hrun : runDivide .num s ((c1, c2) :: (A ++ B)) = .ok t1 := by
+        simp only [runDivide, hd]; exact ht1
+      have hAmem : ∀ d, d ∈ A → d ∈ r := fun d hd => hp'.subset (List.mem_append_left B hd)
+      have hAle : ∀ d, d ∈ A → d.1.length ≤ c1.length := by
+        intro d hd
+        unfold ByLength at hs
+        rw [List.pairwise_append] at hs
+        exact hs.2.2 d hd (c1, c2) List.mem_cons_self
+      obtain ⟨t2, ht2, hsame2⟩ := runDivide_move_past (c1, c2) hc A B
+        (fun d hd => hlen d (List.mem_cons_of_mem _ (hAmem d hd)))
+        (fun d hd => by
+          rcases hlam (c1, c2) List.mem_cons_self d (List.mem_cons_of_mem _ (hAmem d hd)) (hAle d hd) with h | h | h
+          · exact Or.inl h.2
+          · exact Or.inr (Or.inl h)
+          · exact Or.inr (Or.inr h))
+        s t1 hwf hrun
+      exact ⟨t2, ht2, sameStore_trans hsame2 hsame1⟩
+
+def lenLe (c d : DCall) : Bool := decide (c.1.length ≤ d.1.length)
+
+/-- **order independence, as a permutation statement.** Two accepted histories made of the same inputs
+(one a permutation of the other; a strictly laminar family) end in the same store. -/
+theorem runDivide_perm {n : Nat} (calls1 calls2 : List DCall) (hp : calls2.Perm calls1)
+    (hlen : ∀ d, d ∈ calls1 → d.2.length = n) (hlam : StrictLaminar calls1)
+    (s t1 t2 : Store) (hwf : WF n s) (h1 : runDivide .num s calls1 = .ok t1)
+    (h2 : runDivide .num s calls2 = .ok t2) : SameStore t1 t2 := by
+  let srt := calls1.mergeSort lenLe
+  have hperm1 : srt.Perm calls1 := List.mergeSort_perm calls1 lenLe
+  have hsorted : ByLength srt := by
+    have := List.pairwise_mergeSort (le := lenLe)
+      (by intro a b c hab hbc; simp only [lenLe, decide_eq_true_eq] at *; omega)
+      (by intro a b; simp only [lenLe, Bool.or_eq_true, decide_eq_true_eq]; omega) calls1
+    unfold ByLength
+    exact this.imp (by intro a b hab; simpa [lenLe] using hab)
+  have hmem : ∀ d, d ∈ calls2 ↔ d ∈ calls1 := fun d => hp.mem_iff
+  obtain ⟨u1, hu1, hs1⟩ := runDivide_perm_sorted calls1 hlen hlam s t1 hwf h1 srt hperm1 hsorted
+  obtain ⟨u2, hu2, hs2⟩ := runDivide_perm_sorted calls2 (fun d hd => hlen d ((hmem d).mp hd))
+    (fun c hc d hd => hlam c ((hmem c).mp hc) d ((hmem d).mp hd)) s t2 hwf h2 srt (hperm1.trans hp.symm) hsorted
+  rw [hu1] at hu2
+  injection hu2 with e
+  subst e
+  exact sameStore_trans (sameStore_symm hs1) hs2
+
+/-- the pieces `set_input` visits for a period (empty when the walk fails) -/
+def piecesOf (var : VarSpec) (p : Period) : List Period :=
+  match walk var.defUnit p with
+  | .ok l => l
+  | .error _ => []
+
+/-- a history of `Simulation.set_input` calls on a divide variable (exact values, no input dropped by the
+`end` test) is the sequence of `divide` steps on the pieces of its periods -/
+theorem feedAll_runDivide {var : VarSpec} (hr : var.rule = .divide) (hk : var.kind = .num)
+    (hn : var.neutralized = false) {calls : List (Period × Vec)} (hlive : ∀ pv, pv ∈ calls → Live var pv.1)
+    {s t : Store} (h : feedAll var s calls = .ok t) :
+    runDivide .num s (calls.map (fun pv => (piecesOf var pv.1, pv.2))) = .ok t ∧
+      ∀ pv, pv ∈ calls → pv.2.length = var.count := by
+  induction calls generalizing s with
+  | nil => simp only [feedAll] at h; exact ⟨by simpa [runDivide] using h, fun _ hx => by cases hx⟩
+  | cons x xs ih =>
+    obtain ⟨p, v⟩ := x
+    simp only [feedAll] at h
+    cases hs : simSetInput var s p v with
+    | error e => rw [hs] at h; cases h
+    | ok s1 =>
+      rw [hs] at h
+      rw [simSetInput_live (hlive (p, v) List.mem_cons_self)] at hs
+      obtain ⟨hl, _, subs, hw, hd⟩ := setInput_divide_inv hr hn hs
+      rw [hk] at hd
+      simp only [castVec] at hd
+      obtain ⟨h1, h2⟩ := ih (fun pv hpv => hlive pv (List.mem_cons_of_mem _ hpv)) h
+      refine ⟨?_, ?_⟩
+      · simp only [List.map_cons, runDivide, piecesOf, hw, hd]
+        exact h1
+      · intro pv hpv
+        rcases List.mem_cons.mp hpv with rfl | hpv
+        · exact hl
+        · exact h2 pv hpv
+
+/-- a history of `Simulation.set_input` calls on a dispatch variable is the sequence of `dispatch` steps on
+the pieces of its periods, with the values converted to the variable's type -/
+theorem feedAll_runDispatch {var : VarSpec} (hr : var.rule = .dispatch)
+    (hn : var.neutralized = false) {calls : List (Period × Vec)} (hlive : ∀ pv, pv ∈ calls → Live var pv.1)
+    {s t : Store} (h : feedAll var s calls = .ok t) :
+    t = runDispatch s (calls.map (fun pv => (piecesOf var pv.1, castVec var.kind pv.2))) := by
+  induction calls generalizing s with
+  | nil => simp only [feedAll] at h; injection h with h; subst h; rfl
+  | cons x xs ih =>
+    obtain ⟨p, v⟩ := x
+    simp only [feedAll] at h
+    cases hs : simSetInput var s p v with
+    | error e => rw [hs] at h; cases h
+    | ok s1 =>
+      rw [hs] at h
+      rw [simSetInput_live (hlive (p, v) List.mem_cons_self)] at hs
+      obtain ⟨_, _, subs, hw, rfl⟩ := setInput_dispatch_inv hr hn hs
+      have := ih (fun pv hpv => hlive pv (List.mem_cons_of_mem _ hpv)) h
+      simp only [List.map_cons, runDispatch, piecesOf, hw]
+      exact this
+
+theorem keySorted_after (A : List Keyed) (y : Keyed) (B : List Keyed) (h : KeySorted (A ++ y :: B)) :
+    ∀ x, x ∈ B → keyLe y.1 x.1 = true := by
+  induction A with
+  | nil => exact fun x hx => h.1 x hx
+  | cons a r ih => exact ih h.2
 
 end OFCore
